@@ -303,6 +303,9 @@ func runCheck(id, tier string, writeBaseline bool) int {
 	inBase := map[string]bool{}
 	for _, n := range base.Names {
 		inBase[n] = true
+		// the same clause on a further path (name@2, name@3 ...: a new return, a break out of a loop)
+		// is still that clause
+		inBase[occurrenceFree(n)] = true
 	}
 	unprovenBase := map[string]bool{}
 	for _, n := range base.Unproven {
@@ -385,7 +388,7 @@ func runCheck(id, tier string, writeBaseline bool) int {
 			}
 			continue
 		}
-		structural := disciplineKind(o) || inBase[o.Name] || (base.Counts != nil && base.Counts[o.Fn+"#"+o.Kind] == counts[o.Fn+"#"+o.Kind] && base.Counts[o.Fn+"#"+o.Kind] > 0) || o.Kind == "binding" || o.Kind == "engine" || len(base.Names) == 0
+		structural := disciplineKind(o) || inBase[o.Name] || (stableKind(o.Kind) && inBase[occurrenceFree(o.Name)]) || (base.Counts != nil && base.Counts[o.Fn+"#"+o.Kind] == counts[o.Fn+"#"+o.Kind] && base.Counts[o.Fn+"#"+o.Kind] > 0) || o.Kind == "binding" || o.Kind == "engine" || len(base.Names) == 0
 		rp := getReplay(o)
 		switch {
 		case rp.confirmed:
